@@ -3,10 +3,30 @@
 From Coq Require Import List Bool Arith ZArith String.
 Import ListNotations.
 Require Import Nib.C15.Model Nib.C15.Spec.
-Open Scope Z_scope.
+Local Open Scope Z_scope.
 
-(** blocked accounts (BankKeeper.BlockedAddr), initial snapshot, then (op, accepted?, snapshot after) *)
-Definition case : Type := list string * snap * list (op * bool * snap).
+(** Snapshots arrive in compact form: the tracked keys once per case, then value lists aligned
+    with them (supply per denom, balance per (account, denom) key, admin per denom). *)
+Definition raw : Type := list Z * list Z * list (option string).
+Definition keys : Type := list string * list (string * string).
+
+Definition mk_snap (k : keys) (r : raw) : snap :=
+  {| sn_supply := combine (fst k) (fst (fst r));
+     sn_bal := map (fun e : string * string * Z => (fst (fst e), snd (fst e), snd e)) (combine (snd k) (snd (fst r)));
+     sn_admin := combine (fst k) (snd r) |}.
+
+Definition raw_wf (k : keys) (r : raw) : bool :=
+  (List.length (fst (fst r)) =? List.length (fst k))%nat && (List.length (snd (fst r)) =? List.length (snd k))%nat &&
+  (List.length (snd r) =? List.length (fst k))%nat.
+
+(** blocked accounts (BankKeeper.BlockedAddr), keys, initial snapshot, then (op, accepted?, snapshot after) *)
+Definition case : Type := list string * keys * raw * list (op * bool * raw).
+
+Definition trace_of (k : keys) (t : list (op * bool * raw)) : list (op * bool * snap) :=
+  map (fun e => (fst (fst e), snd (fst e), mk_snap k (snd e))) t.
+
+Definition case_wf (c : case) : bool :=
+  let '(_, k, r0, t) := c in raw_wf k r0 && forallb (fun e => raw_wf k (snd e)) t.
 
 Definition init_state (s0 : snap) : st :=
   {| admins := fun d => match lookup d (sn_admin s0) with Some a => a | None => None end;
@@ -29,10 +49,11 @@ Fixpoint trace_mismatch (blocked : list string) (s : st) (t : list (op * bool * 
   end.
 
 Definition mismatch (c : case) : bool :=
-  let '(blocked, s0, t) := c in trace_mismatch blocked (init_state s0) t.
+  let '(blocked, k, r0, t) := c in
+  negb (case_wf c) || trace_mismatch blocked (init_state (mk_snap k r0)) (trace_of k t).
 
 (** the property as the implementation realises it (MsgBurnNative may burn the signer's own coins
     of any denom) … *)
-Definition violates (c : case) : bool := let '(_, s0, t) := c in negb (Pb false s0 t).
+Definition violates (c : case) : bool := let '(_, k, r0, t) := c in negb (Pb false (mk_snap k r0) (trace_of k t)).
 (** … and to the letter (a tf supply moves only by its admin's Mint / Burn) *)
-Definition violates_strict (c : case) : bool := let '(_, s0, t) := c in negb (Pb true s0 t).
+Definition violates_strict (c : case) : bool := let '(_, k, r0, t) := c in negb (Pb true (mk_snap k r0) (trace_of k t)).
